@@ -137,9 +137,10 @@ def run_impl(case):
     class Reactor(object):
         pass
 
-    for op in case['ops']:
-        mark = len(w.lines)
+    def simple(op):
+        """assign / listop / read / needs_save / event / copy: operations that need no answer from Tor"""
         k = op[0]
+        res = None
         if k == 'assign':
             try:
                 setattr(cfg, op[1], py_of_val(op[2]))
@@ -177,6 +178,38 @@ def run_impl(case):
             res = ['val', r[1]] if r[0] == 'got' else ['raised', r[1]]
         elif k == 'needs_save':
             res = ['bool', bool(cfg.needs_save())]
+        elif k == 'event':
+            lines = ['650-CONF_CHANGED']
+            for key, val in op[1]:
+                lines.append('650-%s' % key if val is None else '650-%s=%s' % (key, val))
+            lines.append('650 OK')
+            w.send('\n'.join(lines))
+            res = ['event', bool(cfg.needs_save()), snapshot()]
+        elif k == 'copy':
+            # config.<dst> = config.<src>: the very object the read returns is assigned
+            try:
+                setattr(cfg, op[1], getattr(cfg, op[2]))
+                res = ['ok']
+            except Exception as e:
+                res = ['raised', exc_kind(e)]
+        return res
+
+    SIMPLE = ('assign', 'listop', 'read', 'needs_save', 'event', 'copy')
+
+    def outcome(fired):
+        if not fired:
+            return ['notfired']
+        if isinstance(fired[0], Failure):
+            if isinstance(fired[0].value, TorProtocolError):
+                return ['fail', int(fired[0].value.code)]
+            return ['err', exc_kind(fired[0].value)]
+        return ['ok']
+
+    for op in case['ops']:
+        mark = len(w.lines)
+        k = op[0]
+        if k in SIMPLE:
+            res = simple(op)
         elif k == 'save':
             fired = []
             try:
@@ -201,20 +234,32 @@ def run_impl(case):
                 else:
                     sres = ['ok']
             res = ['saved', sres, bool(cfg.needs_save()), snapshot()]
-        elif k == 'event':
-            lines = ['650-CONF_CHANGED']
-            for key, val in op[1]:
-                lines.append('650-%s' % key if val is None else '650-%s=%s' % (key, val))
-            lines.append('650 OK')
-            w.send('\n'.join(lines))
-            res = ['event', bool(cfg.needs_save()), snapshot()]
-        elif k == 'copy':
-            # config.<dst> = config.<src>: the very object the read returns is assigned
-            try:
-                setattr(cfg, op[1], getattr(cfg, op[2]))
-                res = ['ok']
-            except Exception as e:
-                res = ['raised', exc_kind(e)]
+        elif k == 'saveduring':
+            # save() returns its Deferred; op[2] is performed while the SETCONF is unanswered; then every
+            # outstanding SETCONF is answered in order (the protocol writes the next one after each answer)
+            calls = []
+
+            def call_save():
+                fired = []
+                try:
+                    cfg.save().addBoth(fired.append)
+                    calls.append(fired)
+                    return ['sent']
+                except Exception as e:
+                    calls.append([Failure(e)])
+                    return ['saveraised', exc_kind(e)]
+            first = call_save()
+            inner = []
+            for d in op[2]:
+                inner.append(call_save() if d[0] == 'save' else simple(d))
+            guard = 0
+            while w.unanswered and guard < 50:
+                guard += 1
+                w.take_unanswered()
+                w.send('250 OK' if op[1] is None else '%d Unacceptable option value' % op[1])
+            if first[0] != 'sent':
+                inner = [first] + inner       # (never inside the envelope)
+            res = ['flight', inner, [outcome(f) for f in calls], bool(cfg.needs_save()), snapshot()]
         elif k == 'socks':
             try:
                 ep = cfg.socks_endpoint(Reactor())
@@ -284,7 +329,30 @@ def coq_op(op):
         return 'OpSocks'
     if k == 'copy':
         return C('OpCopy', B(op[1]), B(op[2]))
+    if k == 'saveduring':
+        return C('OpSaveDuring', Opt(None if op[1] is None else N(op[1])), L(coq_dop(d) for d in op[2]))
     raise ValueError(op)
+
+
+def coq_dop(d):
+    k = d[0]
+    if k == 'save':
+        return 'DSave'
+    if k == 'needs_save':
+        return 'DNeedsSave'
+    o = coq_op(d)          # (OpAssign ...) etc.
+    assert o.startswith('(Op') or o.startswith('Op'), o
+    return o.replace('Op', 'D', 1)
+
+
+def coq_ires(r):
+    k = r[0]
+    if k == 'sent':
+        return 'ISent'
+    if k == 'saveraised':
+        return C('ISaveRaised', N(r[1]))
+    o = coq_ores(r)
+    return o.replace('X', 'I', 1)
 
 
 def coq_rval(r):
@@ -331,6 +399,8 @@ def coq_ores(r):
         return C('XSaved', coq_sres(r[1]), Bool(r[2]), L(coq_rres(x) for x in r[3]))
     if k == 'event':
         return C('XEvent', Bool(r[1]), L(coq_rres(x) for x in r[2]))
+    if k == 'flight':
+        return C('XFlight', L(coq_ires(x) for x in r[1]), L(coq_sres(x) for x in r[2]), Bool(r[3]), L(coq_rres(x) for x in r[4]))
     if k == 'socks':
         s = r[1]
         if s[0] == 'tcp':
@@ -592,6 +662,8 @@ class Sim(object):
                 self.det = set()
             else:
                 self.det = set(cn for cn, v in self.pend.items() if v[0] == 's')
+        elif k == 'saveduring':
+            self._flight(op)
         elif k == 'event':
             keys = []
             for key, _ in op[1]:
@@ -605,6 +677,63 @@ class Sim(object):
                 f = self.find(key)
                 cn = f[0] if f else key
                 self.store[cn] = [v for k2, v in op[1] if k2.lower() == key.lower() and v]
+
+
+def _odd(v):
+    return v[0] == 'l' and any(not (a[0] == 's' and a[1]) for a in v[1])
+
+
+def _sim_flight(self, op):
+    """Spec.C10.mon_flight (+ Spec.CfgOracle.flight_ambiguous)"""
+    acc = op[1] is None
+    q = []          # [snapshot, options assigned since it was sent]
+
+    def send():
+        if self.pend:
+            if any(v[0] == 'l' and not v[1] for v in self.pend.values()):
+                self.f1 = True
+            if acc and any(_odd(v) for v in self.pend.values()):
+                self.f4 = True
+            self.det = set(cn for cn, v in self.pend.items() if v[0] == 's')
+            q.append([collections.OrderedDict((cn, (v[0], list(v[1]) if v[0] == 'l' else v[1])) for cn, v in self.pend.items()), []])
+    send()
+    for d in op[2]:
+        if d[0] == 'save':
+            send()
+            continue
+        if acc and q:
+            if d[0] == 'event':
+                for key, _ in d[1]:
+                    f = self.find(key)
+                    if (f[0] if f else key) in self.pend:
+                        self.fs = True
+        if d[0] == 'assign':
+            f = self.find(d[1])
+            if f is not None and spec_validate(f[1], d[2]) is not None:
+                for x in q:
+                    x[1].append(f[0])
+        self.step(d)
+
+    def same(a, b):
+        return a[0] == b[0] and (list(a[1]) == list(b[1]) if a[0] == 'l' else a[1] == b[1])
+    for snap, ra in q:
+        if not acc:
+            continue
+        if any(cn in snap and cn in self.pend and same(snap[cn], self.pend[cn]) for cn in ra):
+            self.fs = True       # assigned again, and ends up with the acknowledged value: outside the envelope
+        for cn, v in snap.items():
+            if v[0] == 's':
+                self.store[cn] = [v[1]] if v[1] else []
+            else:
+                self.store[cn] = [atom_text(a) for a in v[1] if atom_text(a)]
+        for cn in list(self.pend.keys()):
+            if cn in snap and same(snap[cn], self.pend[cn]):
+                del self.pend[cn]
+    if acc and q:
+        self.det = set(cn for cn in self.det if cn in self.pend)
+
+
+Sim._flight = _sim_flight
 
 
 def finding_flags(case):
